@@ -11,6 +11,7 @@
 //!   |J<flags> per field: '-' None, '1' if Path::new(ROOT).join(rel) starts_with(ROOT) and has
 //!             no ParentDir component, '0' otherwise (a real std::path join on this platform)
 //!   |I<hex>,<hex> the id texts as the real types render them (breakpad(), CodeId::as_ref)
+//!   |P<obs>;..    per field `<components of ROOT.join(rel) after ROOT's>:<the same for its parent()>` (compared with the model)
 use breakpad_symbols::{
     binary_lookup, breakpad_sym_lookup, code_info_breakpad_sym_lookup, extra_debuginfo_lookup,
     lookup, moz_lookup, FileKind, FileLookup, SimpleModule,
@@ -99,14 +100,50 @@ fn run(line: &str) -> String {
     }
     let id_txt = did.map(|d| d.breakpad().to_string()).unwrap_or_default();
     let cid_txt = cid.map(|c| c.as_ref().to_string()).unwrap_or_default();
+    // Round 5: what std::path makes of ROOT.join(rel) and of its parent (create_dir_all's argument), as component
+    // lists after ROOT's own components ("!" when ROOT's components are not in front / there is no parent)
+    let comps_obs: Vec<String> = fields
+        .iter()
+        .map(|f| match f {
+            Some(Ok(p)) => {
+                let j = Path::new(ROOT).join(p);
+                format!("{}:{}", comps_after_root(Some(&j)), comps_after_root(j.parent()))
+            }
+            _ => "N".to_string(),
+        })
+        .collect();
     format!(
-        "{}|L{}|J{}|I{},{}",
+        "{}|L{}|J{}|I{},{}|P{}",
         out.join(";"),
         if consistent { 1 } else { 0 },
         flags,
         hex(id_txt.as_bytes()),
-        hex(cid_txt.as_bytes())
+        hex(cid_txt.as_bytes()),
+        comps_obs.join(";")
     )
+}
+
+/// the components of `p` after those of ROOT, hex, comma separated ("-" for none); "!" if ROOT's components are
+/// not the first ones (or p is None)
+fn comps_after_root(p: Option<&Path>) -> String {
+    let Some(p) = p else { return "!".into() };
+    let root: Vec<Component> = Path::new(ROOT).components().collect();
+    let all: Vec<Component> = p.components().collect();
+    if all.len() < root.len() || all[..root.len()] != root[..] {
+        return "!".into();
+    }
+    let rest: Vec<String> = all[root.len()..]
+        .iter()
+        .map(|c| {
+            use std::os::unix::ffi::OsStrExt;
+            hex(c.as_os_str().as_bytes())
+        })
+        .collect();
+    if rest.is_empty() {
+        "-".into()
+    } else {
+        rest.join(",")
+    }
 }
 
 /// `c17 --url-probe`: end-to-end observation of the URLs the HTTP supplier really requests.
@@ -231,11 +268,13 @@ fn fs_probe() {
     });
     let rt = tokio::runtime::Builder::new_current_thread().enable_all().build().expect("runtime");
 
+    // files AND directories (create_dir_all is a sink of its own: it runs before, and even without, the file creation)
     fn walk(dir: &Path, out: &mut BTreeSet<PathBuf>) {
         if let Ok(rd) = std::fs::read_dir(dir) {
             for e in rd.flatten() {
                 let p = e.path();
-                if p.is_dir() {
+                if p.is_dir() && !p.is_symlink() {
+                    out.insert(p.clone());
                     walk(&p, out);
                 } else {
                     out.insert(p);
@@ -350,7 +389,9 @@ fn fs_probe() {
         walk(&t, &mut after);
         let mut created = 0;
         for p in after.difference(&before) {
-            created += 1;
+            if !p.is_dir() {
+                created += 1;
+            }
             if !(p.starts_with(&cache) || p.starts_with(&tmp)) {
                 let shown = p.strip_prefix(&t).map(|r| format!("<T>/{}", r.display())).unwrap_or_else(|_| p.display().to_string());
                 return format!("F|ESC|the run created {} outside the cache and tmp directories", shown);
@@ -371,7 +412,7 @@ fn fs_probe() {
         };
         let made: Vec<String> = after
             .difference(&before)
-            .filter(|p| p.starts_with(&cache))
+            .filter(|p| p.starts_with(&cache) && !p.is_dir())
             .map(|p| rel_text(p, &cache))
             .collect();
         // third phase: a symbol directory that HAS the files; the simple supplier must answer <dir>/<cache_rel>
